@@ -285,6 +285,21 @@ Definition classes (c : tcase) : list string :=
    | Mutation => if earlier_nested root then ["nontrivial"] else []
    end).
 
+(** the apifu route (apifu.Go goroutines): the order of events within a root field is decided by
+    the Go scheduler; compared as multisets *)
+Fixpoint remove_event (e : event) (l : list event) : option (list event) :=
+  match l with
+  | [] => None
+  | x :: tl => if event_eqb e x then Some tl
+               else match remove_event e tl with Some r => Some (x :: r) | None => None end
+  end.
+Fixpoint events_perm (a b : list event) : bool :=
+  match a with
+  | [] => match b with [] => true | _ => false end
+  | e :: tl => match remove_event e b with Some b' => events_perm tl b' | None => false end
+  end.
+Definition is_api (c : tcase) : bool := existsb (String.eqb "apifu-go") (c_feat c).
+
 (** ** check *)
 Definition check_case (c : tcase) : sexp :=
   let root := c_plan c in
@@ -295,8 +310,11 @@ Definition check_case (c : tcase) : sexp :=
       let fuel := S (count_async root) in
       match run (if c_idle c then Some (sigma_ranks (c_ranks c)) else None) (c_mode c) fuel root with
       | Done r =>
-          if negb (events_eqb (r_events r) (o_events o)) then v_mismatch "events" [of_list of_event (r_events r)]
-          else if negb (Nat.eqb (r_rounds r) (o_rounds o)) then v_mismatch "rounds" [of_nat (r_rounds r)]
+          if is_api c && calm root && negb (events_perm (r_events r) (o_events o))
+          then v_mismatch "events-multiset" [of_list of_event (r_events r)]
+          else if negb (is_api c) && negb (events_eqb (r_events r) (o_events o))
+          then v_mismatch "events" [of_list of_event (r_events r)]
+          else if negb (is_api c) && negb (Nat.eqb (r_rounds r) (o_rounds o)) then v_mismatch "rounds" [of_nat (r_rounds r)]
           else if negb (Bool.eqb (r_null r) (match o_data o with None => true | Some _ => false end))
                then v_mismatch "data-null" [of_bool (r_null r)]
           else if match c_mode c, o_data o with
